@@ -14,6 +14,24 @@ partial def dumpLabelled (nInputs : Nat) (ns : List INode) : String :=
   let body := ns.foldl (fun acc n => acc ++ go 0 n) ""
   s!"{(ns.map fun n => n.ids.length).foldl (· + ·) 0}{body}"
 
+/-- the family every HUSB / WIFE / CHIL object of the inputs belongs to, as the decoder assigns it
+    when the inputs are decoded from one text behind a leading `0 @F0@ FAM` record: the last FAM
+    node before it in document order -/
+partial def famEnv (cur : Nat × Str) : List INode → (Nat × Str) × List (Nat × Nat × Str)
+  | [] => (cur, [])
+  | .mk i t _ p ks :: rest =>
+    let cur1 := if t == tagFAM then (i + 1, p) else cur
+    let here := if needsFamily t then [(i, cur1)] else []
+    let a := famEnv cur1 ks
+    let b := famEnv a.1 rest
+    (b.1, here ++ a.2 ++ b.2)
+
+def showAdds (l : List Str) : String :=
+  if l.isEmpty then "-" else ",".intercalate (l.map fun p => toHex p)
+
+def initSt (n : Nat) (inputs : List INode) : MSt :=
+  { next := n, writes := [], oof := false, famOf := (famEnv (0, lit "F0") inputs).2 }
+
 /-- the right-hand positions that were merged into a left node, ascending, e.g. `0,3` (`-` = none) -/
 def showMerged (es : List Elem) : String :=
   let js := es.filterMap fun e => match e.prov with | [.L _, .R j] => some j | _ => none
@@ -30,11 +48,11 @@ def handleMerge (cmd : String) (rest : List String) : Option String :=
       let a := labelNode 0 l
       let b := labelNode a.2 r
       let n := b.2
-      match mergeNodes codeFlags a.1 b.1 ⟨n, [], false, false⟩ with
+      match mergeNodes codeFlags a.1 b.1 (initSt n [a.1, b.1]) with
       | .error => some "err"
       | .panic => some "panic"
       | .outOfFuel => some "oof"
-      | .ok m st => some s!"ok written={b2s (st.writes.any (· < n))} {dumpLabelled n [m]}"
+      | .ok m st => some s!"ok written={b2s (st.writes.any (· < n))} adds={showAdds st.famAdds} {dumpLabelled n [m]}"
     | _ => some "bad-op"
   | "mslice" =>
     -- mslice <eq|always|never> <forest left> <forest right>
@@ -56,11 +74,11 @@ def handleMerge (cmd : String) (rest : List String) : Option String :=
           match f with
           | none => some "bad-op"
           | some f =>
-            match mergeNodeSlicesO codeFlags f a.1 b.1 ⟨n, [], false, false⟩ with
+            match mergeNodeSlicesO codeFlags f a.1 b.1 (initSt n (a.1 ++ b.1)) with
             | .panic => some "panic"
             | .outOfFuel => some "oof"
             | .ok es st =>
-              some s!"ok len={es.length} merged={showMerged es} written={b2s (st.writes.any (· < n))} {dumpLabelled n (es.map (·.node))}"
+              some s!"ok len={es.length} merged={showMerged es} written={b2s (st.writes.any (· < n))} adds={showAdds st.famAdds} {dumpLabelled n (es.map (·.node))}"
         | _ => some "bad-op"
       | none => some "bad-op"
     | _ => some "bad-op"
